@@ -33,6 +33,7 @@ TraceReset ==
     /\ path' = [k \in Keys |-> None]
     /\ fmap' = [k \in Keys |-> None] /\ flru' = <<>>
     /\ R' = [r \in Readers |-> [key |-> "", src |-> "none", ref |-> None]]
+    /\ shut' = FALSE
     /\ last' = [act |-> "Init"]
 
 TraceAddOpen == IsEvent("AddOpen") /\ AddOpen(Ev.w, Ev.k, Ev.len, Ev.direct) /\ FilesOK
@@ -50,10 +51,11 @@ TraceReadAt ==
                        /\ (Ev.res.n > 0 => last'.res.val = Ev.res.val))
     /\ FilesOK
 TraceCloseReader == IsEvent("CloseReader") /\ CloseReader(Ev.r) /\ FilesOK
+TraceCloseCache == IsEvent("CloseCache") /\ CloseCache /\ FilesOK
 
 TraceNext ==
     \/ TraceReset \/ TraceAddOpen \/ TraceWrite \/ TraceCommitPublish \/ TracePersistWrite
-    \/ TracePersistRename \/ TraceCommitDirect \/ TraceAbort \/ TraceGet \/ TraceReadAt \/ TraceCloseReader
+    \/ TracePersistRename \/ TraceCommitDirect \/ TraceAbort \/ TraceGet \/ TraceReadAt \/ TraceCloseReader \/ TraceCloseCache
 
 TraceSpec == TraceInit /\ [][TraceNext]_tvars
 
